@@ -8,6 +8,7 @@ import (
 	"go/token"
 	"go/types"
 	"math/big"
+	"os"
 	"strconv"
 	"strings"
 )
@@ -22,6 +23,7 @@ type evalCtx struct {
 	inOld    bool
 	pkg      *types.Package
 	recDepth int
+	frame    *Frame
 }
 
 var (
@@ -105,6 +107,10 @@ func (c *evalCtx) intOf(v Value) *Term {
 	case VIface:
 		if x.V != nil {
 			return c.intOf(x.V)
+		}
+		if x.Dyn == nil && x.NilSym == nil {
+			// an unset frontend.Variable (e.g. a freshly made slice element): an arbitrary, unconstrained value
+			return Var("unset.frontend.Variable", SInt)
 		}
 	case VStruct:
 		// goldilocks.Variable: single Limb field
@@ -337,6 +343,22 @@ func (c *evalCtx) flat(v Value) []*Term {
 		return c.flat(c.deref(v))
 	case VBigRef:
 		return []*Term{x.T}
+	case VIface:
+		if x.V == nil && x.Dyn == nil && x.NilSym == nil {
+			return []*Term{Var("unset.frontend.Variable", SInt)}
+		}
+	case VStruct:
+		var out []*Term
+		for _, f := range x.F {
+			out = append(out, c.flat(f)...)
+		}
+		return out
+	case VArr:
+		var out []*Term
+		for _, f := range x.E {
+			out = append(out, c.flat(f)...)
+		}
+		return out
 	}
 	return flatten(v, nil)
 }
@@ -368,6 +390,39 @@ func (c *evalCtx) evalCall(n *ast.CallExpr) Value {
 		c.inOld = true
 		defer func() { c.inOld = saved }()
 		return c.eval(n.Args[0])
+	case "callresult":
+		if c.frame == nil {
+			panic(execError{"contract: callresult() is only available in ghost initialisers"})
+		}
+		nm := c.eval(n.Args[0]).(VStr).T.Name
+		k := c.intOf(c.eval(n.Args[1]))
+		v, ok := c.frame.callResults[fmt.Sprintf("%s#%d", nm, k.Val.Int64())]
+		if !ok {
+			panic(execError{"contract: no recorded result of call " + nm})
+		}
+		return v
+	case "atentry":
+		// atentry(e): the value of e when the innermost enclosing cut loop that has a snapshot was entered
+		if c.frame == nil || len(c.frame.entrySnap) == 0 {
+			panic(execError{"contract: atentry() outside a loop invariant"})
+		}
+		best := -1
+		for ord := range c.frame.entrySnap {
+			if ord > best {
+				best = ord
+			}
+		}
+		if len(n.Args) == 2 {
+			best = int(c.intOf(c.eval(n.Args[1])).Val.Int64())
+		}
+		snap := c.frame.entrySnap[best]
+		if snap == nil {
+			panic(execError{"contract: atentry(): no snapshot for that loop"})
+		}
+		savedNames, savedHeap := c.names, c.s.heap
+		c.names, c.s.heap = snap.names, snap.heap
+		defer func() { c.names, c.s.heap = savedNames, savedHeap }()
+		return c.eval(n.Args[0])
 	case "len":
 		v := c.deref(c.eval(n.Args[0]))
 		switch x := v.(type) {
@@ -396,6 +451,15 @@ func (c *evalCtx) evalCall(n *ast.CallExpr) Value {
 		var el []Value
 		for _, a := range n.Args {
 			el = append(el, c.eval(a))
+		}
+		return VSpecTuple{el}
+	case "flat":
+		// flat(a, b, ...): one tuple of all scalar leaves
+		var el []Value
+		for _, a := range n.Args {
+			for _, t := range c.flat(c.deref(c.eval(a))) {
+				el = append(el, VInt{t})
+			}
 		}
 		return VSpecTuple{el}
 	case "forall", "exists":
@@ -701,6 +765,9 @@ func sameOpaque(a, b Value) bool {
 // recursive specification functions (compiled to SMT define-funs-rec)
 
 func kindWidth(k string) (seq bool, width int) {
+	if k == "[][]int" {
+		return true, 1
+	}
 	if strings.HasPrefix(k, "[]") {
 		seq = true
 		k = k[2:]
@@ -734,6 +801,9 @@ func (c *evalCtx) callRecDef(rd *RecDef, n *ast.CallExpr) Value {
 	for i, a := range n.Args {
 		vals[i] = c.deref(c.eval(a))
 		seq, w := kindWidth(rd.Kinds[i])
+		if rd.Kinds[i] == "[][]int" {
+			concrete = false
+		}
 		if seq {
 			sl, ok := vals[i].(VSlice)
 			if !ok || !sl.Len.IsConst() || !sl.Off.IsConst() {
@@ -744,6 +814,10 @@ func (c *evalCtx) callRecDef(rd *RecDef, n *ast.CallExpr) Value {
 				concrete = false
 			}
 		}
+	}
+	recCalls[rd.Name]++
+	if recCalls[rd.Name]%200000 == 0 {
+		fmt.Fprintf(os.Stderr, "govc: recdef %s unfolded %d times (concrete=%v)\n", rd.Name, recCalls[rd.Name], concrete)
 	}
 	if concrete && c.recDepth < 600 {
 		saved := map[string]Value{}
@@ -805,6 +879,15 @@ func (c *evalCtx) callRecDef(rd *RecDef, n *ast.CallExpr) Value {
 	for i := range n.Args {
 		v := vals[i]
 		seq, w := kindWidth(rd.Kinds[i])
+		if rd.Kinds[i] == "[][]int" {
+			sl, ok := v.(VSlice)
+			if !ok {
+				panic(execError{"contract: " + rd.Name + ": argument " + rd.Params[i] + " must be a slice of slices"})
+			}
+			a2, lens := c.seq2ToArrays(sl)
+			args = append(args, a2, lens, sl.Len)
+			continue
+		}
 		if seq {
 			sl, ok := v.(VSlice)
 			if !ok {
@@ -830,6 +913,31 @@ func (c *evalCtx) callRecDef(rd *RecDef, n *ast.CallExpr) Value {
 		el[k] = VInt{App(fmt.Sprintf("rec$%s$%d", rd.Name, k), SInt, args...)}
 	}
 	return VSpecTuple{el}
+}
+
+// seq2ToArrays: a slice of integer slices as (two-level array, array of inner lengths).  Only sequences
+// that already are such arrays (abstract inputs) are supported.
+func (c *evalCtx) seq2ToArrays(sl VSlice) (*Term, *Term) {
+	boundSeq++
+	i := Bound(fmt.Sprintf("i$%d", boundSeq), SInt)
+	boundSeq++
+	j := Bound(fmt.Sprintf("j$%d", boundSeq), SInt)
+	inner, ok := c.deref(c.withHeap(func() Value { return c.e.sliceAt(c.s, sl, i) })).(VSlice)
+	if !ok {
+		panic(execError{"contract: expected a slice of slices"})
+	}
+	fl := c.flat(c.withHeap(func() Value { return c.e.sliceAt(c.s, inner, j) }))
+	if len(fl) != 1 {
+		panic(execError{"contract: [][]int argument with non-scalar elements"})
+	}
+	lf := fl[0]
+	if lf.Op == "select" && lf.Args[1] == j && lf.Args[0].Op == "select" && lf.Args[0].Args[1] == i && !containsTerm(lf.Args[0].Args[0], i) && !containsTerm(lf.Args[0].Args[0], j) {
+		ln := inner.Len
+		if ln.Op == "select" && ln.Args[1] == i && !containsTerm(ln.Args[0], i) {
+			return lf.Args[0].Args[0], ln.Args[0]
+		}
+	}
+	panic(execError{"contract: this slice of slices cannot be passed to a recursive specification function"})
 }
 
 // seqToArrays turns a slice into `width` SMT arrays indexed from 0.
@@ -873,7 +981,7 @@ func (c *evalCtx) seqToArrays(sl VSlice, width int) []*Term {
 	arrs := make([]*Term, width)
 	fast := true
 	for k, lf := range leaves {
-		if lf.Op == "select" && lf.Args[1] == j && (lf.Args[0].Op == "var" || lf.Args[0].Op == "bound") {
+		if lf.Op == "select" && lf.Args[1] == j && !containsTerm(lf.Args[0], j) {
 			arrs[k] = lf.Args[0]
 		} else {
 			fast = false
@@ -882,9 +990,54 @@ func (c *evalCtx) seqToArrays(sl VSlice, width int) []*Term {
 	if fast {
 		return arrs
 	}
-	for k, lf := range leaves {
-		arrs[k] = Fresh("seqarr", SArr)
-		c.s.assume(Forall([]*Term{j}, Implies(And(Le(Int64C(0), j), Lt(j, sl.Len)), Eq(Select(arrs[k], j), lf))))
+	// the same sequence value always gets the same array constants (otherwise two mentions of one
+	// sequence would be two arrays that agree only on [0,len), which recursive specs cannot relate)
+	seqObj := c.e.sliceSeq(c.s, sl)
+	key := fmt.Sprintf("%p|%d|%d|%d", seqObj, sl.Off.id, sl.Len.id, width)
+	if cached, ok := c.e.seqArrays[key]; ok {
+		return cached
+	}
+	// outer bound variables (the sequence is mentioned under a quantifier): the arrays become a family
+	// indexed by that variable
+	outer := map[*Term]bool{}
+	var collect func(t *Term)
+	seenT := map[*Term]bool{}
+	collect = func(t *Term) {
+		if seenT[t] {
+			return
+		}
+		seenT[t] = true
+		if t.Op == "bound" && t != j {
+			outer[t] = true
+		}
+		for _, a := range t.Args {
+			collect(a)
+		}
+	}
+	for _, lf := range leaves {
+		collect(lf)
+	}
+	collect(sl.Len)
+	switch len(outer) {
+	case 0:
+		for k, lf := range leaves {
+			arrs[k] = Fresh("seqarr", SArr)
+			c.s.assume(Forall([]*Term{j}, Implies(And(Le(Int64C(0), j), Lt(j, sl.Len)), Eq(Select(arrs[k], j), lf))))
+		}
+		c.e.seqArrays[key] = arrs
+	case 1:
+		var ov *Term
+		for t := range outer {
+			ov = t
+		}
+		for k, lf := range leaves {
+			fam := Fresh("seqarr2", SArr2)
+			arrs[k] = Select(fam, ov)
+			c.s.assume(Forall([]*Term{ov, j}, Implies(And(Le(Int64C(0), j), Lt(j, sl.Len)), Eq(Select(arrs[k], j), lf))))
+		}
+		// not cached: the key would have to include the bound variable
+	default:
+		panic(execError{"contract: a sequence under two nested quantifiers cannot be passed to a recursive specification function"})
 	}
 	return arrs
 }
@@ -908,6 +1061,7 @@ func isRecursionIndex(rd *RecDef, idx int) bool {
 }
 
 var recCompiling = map[string]bool{}
+var recCalls = map[string]int{}
 
 // recFunDecls: declarations of uninterpreted functions needed by a recursive definition.
 var recFunDecls = map[string]map[string]string{}
@@ -922,6 +1076,18 @@ func (e *Engine) compileRecDef(rd *RecDef) {
 	var decl []string
 	for i, p := range rd.Params {
 		seq, w := kindWidth(rd.Kinds[i])
+		if rd.Kinds[i] == "[][]int" {
+			a2 := Bound(p+"$a2", SArr2)
+			lens := Bound(p+"$lens", SArr)
+			ln := Bound(p+"$len", SInt)
+			decl = append(decl, fmt.Sprintf("(%s (Array Int (Array Int Int)))", smtName(a2.Name)), fmt.Sprintf("(%s (Array Int Int))", smtName(lens.Name)), fmt.Sprintf("(%s Int)", smtName(ln.Name)))
+			env[p] = VSlice{Pure: &Seq{Sym: func(i *Term) Value {
+				row := Select(a2, i)
+				rl := Select(lens, i)
+				return VSlice{Pure: &Seq{Sym: func(j *Term) Value { return VInt{Select(row, j)} }}, Off: Int64C(0), Len: rl, Cap: rl}
+			}}, Off: Int64C(0), Len: ln, Cap: ln}
+			continue
+		}
 		if seq {
 			arrs := make([]*Term, w)
 			for k := range arrs {
@@ -987,7 +1153,7 @@ func (e *Engine) compileRecDef(rd *RecDef) {
 	}()
 	for k := 0; k < rw; k++ {
 		sigs = append(sigs, fmt.Sprintf("(%s (%s) Int)", smtName(fmt.Sprintf("rec$%s$%d", rd.Name, k)), strings.Join(decl, " ")))
-		bodies = append(bodies, p.str(comps[k]))
+		bodies = append(bodies, p.strLet(comps[k]))
 	}
 	def := "(define-funs-rec (" + strings.Join(sigs, " ") + ") (" + strings.Join(bodies, " ") + "))"
 	var deps []string
